@@ -14,16 +14,20 @@
 #define LENMIS  0x21100010u
 static const uint32_t MAPV[] = { M8, M16, M32, NONMAP, RO32, WO32, MISSING, LEN64, LENMIS };
 #define NMAPV 9
-static const uint8_t  CNTV[] = { 0, 1, 2, 8, 9 };
+static const uint8_t  CNTV[] = { 0, 1, 2, 8, 9, 4, 5 };
+#define NCNT 7
 static const uint8_t  TYPV[] = { 1, 254, 255 };
 static const uint8_t  SUBK[] = { 1, 2, 8 };
 
-typedef struct { uint32_t cob; uint8_t type, count; uint32_t map[3]; } MP;       /* map[] for sub 1, 2, 8 */
+typedef struct { uint32_t cob; uint8_t type, count; uint32_t map[8]; } MP;       /* map[k-1] for sub k */
 static struct { uint8_t op; MP p[2]; } M;                                         /* p[0] RPDO0, p[1] TPDO0 */
 static const uint32_t COB0[2] = { 0x00000201u, 0x40000181u };
 
-/* events per PDO: 6 id values, 3 types, 5 counts, 3*9 map writes = 41; two PDOs = 82; + start, preop */
-#define EPP 41
+/* events per PDO: 6 id values, 3 types, 7 counts, 3*9 map writes (subs 1,2,8), 3 fill macros (all 8 entries := 32-bit / 64-bit / 8-bit object) = 46 */
+#define EPP (6 + 3 + NCNT + 3 * NMAPV + 3)
+#define K_CNT0 9
+#define K_MAP0 (K_CNT0 + NCNT)
+#define K_FILL0 (K_MAP0 + 3 * NMAPV)
 enum { E_START = 2 * EPP, E_PREOP, E_N };
 static uint32_t idval(int pdo, int k)
 {
@@ -55,13 +59,14 @@ static const char *ev_name(int e)
     int pdo = e / EPP, k = e % EPP; uint16_t com = (uint16_t)(pdo ? 0x1800 : 0x1400), map = (uint16_t)(pdo ? 0x1A00 : 0x1600);
     if (k < 6) snprintf(b, sizeof b, "SDO %04Xh:1=%08X", com, idval(pdo, k));
     else if (k < 9) snprintf(b, sizeof b, "SDO %04Xh:2=%d", com, TYPV[k - 6]);
-    else if (k < 14) snprintf(b, sizeof b, "SDO %04Xh:0=%d", map, CNTV[k - 9]);
-    else snprintf(b, sizeof b, "SDO %04Xh:%d=%08X", map, SUBK[(k - 14) / NMAPV], MAPV[(k - 14) % NMAPV]);
+    else if (k < K_MAP0) snprintf(b, sizeof b, "SDO %04Xh:0=%d", map, CNTV[k - K_CNT0]);
+    else if (k < K_FILL0) snprintf(b, sizeof b, "SDO %04Xh:%d=%08X", map, SUBK[(k - K_MAP0) / NMAPV], MAPV[(k - K_MAP0) % NMAPV]);
+    else snprintf(b, sizeof b, "SDO %04Xh:1..8 all = %s", map, k == K_FILL0 ? "32-bit object" : k == K_FILL0 + 1 ? "64 bits" : "8-bit object");
     return b;
 }
 
 static int valid(const MP *p) { return !(p->cob >> 31); }
-static uint32_t entry(const MP *p, int sub) { return sub == 1 ? p->map[0] : sub == 2 ? p->map[1] : sub == 8 ? p->map[2] : 0; }
+static uint32_t entry(const MP *p, int sub) { return (sub >= 1 && sub <= 8) ? p->map[sub - 1] : 0; }
 static int clean(const MP *p)              /* configuration whose meaning the statement defines: every counted entry names a mappable object with its own width */
 {
     for (int s = 1; s <= p->count; s++) { uint32_t m = entry(p, s); if (m != M8 && m != M16 && m != M32 && m != RO32 && m != WO32) return 0; }
@@ -112,62 +117,75 @@ static void probe_rpdo(const char *when)
     restore_objects();
 }
 
+/* one SDO write to a PDO parameter: kind 0 COB-ID, 1 type, 2 count, 3 mapping entry `sub`; returns 1 if a violation was recorded */
+static int one_write(int e, int pdo, int kind, int sub, uint32_t val)
+{
+    MP *p = &M.p[pdo]; uint16_t com = (uint16_t)(pdo ? 0x1800 : 0x1400), map = (uint16_t)(pdo ? 0x1A00 : 0x1600);
+    int verdict = V_ACCEPT; uint32_t code = 0, r; MP next = *p; int revalidated = 0;
+    if (kind == 0) {
+        uint32_t nv = val;
+        if (nv & 0x20000000u) { verdict = V_REFUSE; code = CO_SDO_ERR_RANGE; }
+        else if (pdo && !(nv & 0x40000000u)) { verdict = V_REFUSE; code = CO_SDO_ERR_RANGE; }
+        else if (valid(p)) {
+            if (nv >> 31) verdict = ((nv & 0x3FFFFFFFu) == (p->cob & 0x3FFFFFFFu)) ? V_ACCEPT : V_EITHER;
+            else verdict = (nv == p->cob) ? V_EITHER : V_REFUSE;
+        }
+        next.cob = nv; revalidated = !valid(p) && !(nv >> 31);
+        r = nc_sdo_write(com, 1, nv, 4);
+    } else if (kind == 1) {
+        if (valid(p)) verdict = V_REFUSE;
+        next.type = (uint8_t)val;
+        r = nc_sdo_write(com, 2, val, 1);
+    } else if (kind == 2) {
+        uint8_t v = (uint8_t)val; MP t = *p; t.count = v;
+        if (valid(p)) verdict = V_REFUSE;
+        else if (v > 8 || bytes(&t) > 8) { verdict = V_REFUSE; code = CO_SDO_ERR_OBJ_MAP_N; }
+        else { for (int s = 1; s <= v; s++) if (entry(p, s) == 0) verdict = V_EITHER; }
+        next.count = v;
+        r = nc_sdo_write(map, 0, v, 1);
+    } else {
+        uint32_t mv = val;
+        if (valid(p) || p->count != 0) verdict = V_REFUSE;
+        else if (mv == MISSING || mv == NONMAP || (pdo == 0 && mv == RO32) || (pdo == 1 && mv == WO32)) { verdict = V_REFUSE; code = CO_SDO_ERR_OBJ_MAP; }
+        else if (mv == LEN64 || mv == LENMIS) verdict = V_EITHER;
+        next.map[sub - 1] = mv;
+        r = nc_sdo_write(map, (uint8_t)sub, mv, 4);
+    }
+    if (r == 0xFFFFFFFFu) { mc_fail("pdo-write-no-answer", "'%s' not answered", ev_name(e)); return 1; }
+    if (verdict == V_ACCEPT && r != 0) { mc_fail("pdo-write-refused", "'%s' (sub %d) refused with %08X although the CiA 301 preconditions hold (PDO %s, count %d)", ev_name(e), sub, r, valid(p) ? "valid" : "invalid", p->count); return 1; }
+    if (verdict == V_REFUSE && r == 0) { mc_fail("pdo-write-accepted", "'%s' (sub %d) accepted although it must be refused (PDO %s, count %d, the counted entries would map %d bytes)", ev_name(e), sub, valid(p) ? "valid" : "invalid", p->count, kind == 2 ? bytes(&next) : bytes(p)); return 1; }
+    if (verdict == V_REFUSE && code && r != code) { mc_fail("pdo-write-abort-code", "'%s' refused with %08X, expected %08X", ev_name(e), r, code); return 1; }
+    if (r == 0) *p = next;
+    if (r == 0 && revalidated && M.op) { if (pdo) probe_tpdo("re-validation while OPERATIONAL"); else probe_rpdo("re-validation while OPERATIONAL"); }
+    return 0;
+}
+
 static int step(int e)
 {
     if (e == E_START) { int was = M.op; M.op = 1; nc_nmt(1, 0); if (!was) { if (valid(&M.p[1])) probe_tpdo("entering OPERATIONAL"); if (valid(&M.p[0])) probe_rpdo("entering OPERATIONAL"); } }
     else if (e == E_PREOP) { M.op = 0; nc_nmt(128, 0); }
     else {
-        int pdo = e / EPP, k = e % EPP; MP *p = &M.p[pdo]; uint16_t com = (uint16_t)(pdo ? 0x1800 : 0x1400), map = (uint16_t)(pdo ? 0x1A00 : 0x1600);
-        int verdict = V_ACCEPT; uint32_t code = 0, r; MP next = *p; int revalidated = 0;
-        if (k < 6) {
-            uint32_t nv = idval(pdo, k);
-            if (nv & 0x20000000u) { verdict = V_REFUSE; code = CO_SDO_ERR_RANGE; }
-            else if (pdo && !(nv & 0x40000000u)) { verdict = V_REFUSE; code = CO_SDO_ERR_RANGE; }
-            else if (valid(p)) {
-                if (nv >> 31) verdict = ((nv & 0x3FFFFFFFu) == (p->cob & 0x3FFFFFFFu)) ? V_ACCEPT : V_EITHER;
-                else verdict = (nv == p->cob) ? V_EITHER : V_REFUSE;
-            }
-            next.cob = nv; revalidated = !valid(p) && !(nv >> 31);
-            r = nc_sdo_write(com, 1, nv, 4);
-        } else if (k < 9) {
-            if (valid(p)) verdict = V_REFUSE;
-            next.type = TYPV[k - 6];
-            r = nc_sdo_write(com, 2, TYPV[k - 6], 1);
-        } else if (k < 14) {
-            uint8_t v = CNTV[k - 9]; MP t = *p; t.count = v;
-            if (valid(p)) verdict = V_REFUSE;
-            else if (v > 8 || bytes(&t) > 8) { verdict = V_REFUSE; code = CO_SDO_ERR_OBJ_MAP_N; }
-            else { for (int s = 1; s <= v; s++) if (entry(p, s) == 0) verdict = V_EITHER; }
-            next.count = v;
-            r = nc_sdo_write(map, 0, v, 1);
-        } else {
-            int si = (k - 14) / NMAPV; uint32_t mv = MAPV[(k - 14) % NMAPV];
-            if (valid(p) || p->count != 0) verdict = V_REFUSE;
-            else if (mv == MISSING || mv == NONMAP || (pdo == 0 && mv == RO32) || (pdo == 1 && mv == WO32)) { verdict = V_REFUSE; code = CO_SDO_ERR_OBJ_MAP; }
-            else if (mv == LEN64 || mv == LENMIS) verdict = V_EITHER;
-            next.map[si] = mv;
-            r = nc_sdo_write(map, SUBK[si], mv, 4);
-        }
-        if (r == 0xFFFFFFFFu) { mc_fail("pdo-write-no-answer", "'%s' not answered", ev_name(e)); return MC_OK; }
-        if (verdict == V_ACCEPT && r != 0) { mc_fail("pdo-write-refused", "'%s' refused with %08X although the CiA 301 preconditions hold (PDO %s, count %d)", ev_name(e), r, valid(p) ? "valid" : "invalid", p->count); return MC_OK; }
-        if (verdict == V_REFUSE && r == 0) { mc_fail("pdo-write-accepted", "'%s' accepted although it must be refused (PDO %s, count %d, mapped bytes %d)", ev_name(e), valid(p) ? "valid" : "invalid", p->count, bytes(p)); return MC_OK; }
-        if (verdict == V_REFUSE && code && r != code) { mc_fail("pdo-write-abort-code", "'%s' refused with %08X, expected %08X", ev_name(e), r, code); return MC_OK; }
-        if (r == 0) *p = next;
-        if (r == 0 && revalidated && M.op) { if (pdo) probe_tpdo("re-validation while OPERATIONAL"); else probe_rpdo("re-validation while OPERATIONAL"); }
+        int pdo = e / EPP, k = e % EPP;
+        if (k >= K_FILL0) {                               /* macro: the eight entry writes one after the other, each judged */
+            uint32_t mv = k == K_FILL0 ? M32 : k == K_FILL0 + 1 ? LEN64 : M8;
+            for (int sub = 1; sub <= 8; sub++) if (one_write(e, pdo, 3, sub, mv)) return MC_OK;
+        } else if (k < 6) { if (one_write(e, pdo, 0, 0, idval(pdo, k))) return MC_OK; }
+        else if (k < 9) { if (one_write(e, pdo, 1, 0, TYPV[k - 6])) return MC_OK; }
+        else if (k < K_MAP0) { if (one_write(e, pdo, 2, 0, CNTV[k - K_CNT0])) return MC_OK; }
+        else { if (one_write(e, pdo, 3, SUBK[(k - K_MAP0) / NMAPV], MAPV[(k - K_MAP0) % NMAPV])) return MC_OK; }
     }
     (void)CONodeGetErr(&Node);
     /* stored configuration == model (a refused write changes nothing) */
     {
         const MP *r = &M.p[0], *t = &M.p[1];
-        if (RpCob[0] != r->cob || RpType[0] != r->type || RpNum[0] != r->count || RpMap[0][0] != r->map[0] || RpMap[0][1] != r->map[1] || RpMap[0][7] != r->map[2])
-            { mc_fail("pdo-stored-value", "after '%s' RPDO parameters are cob=%08X type=%d count=%d map=%08X,%08X,..,%08X; expected cob=%08X type=%d count=%d map=%08X,%08X,..,%08X", ev_name(e), RpCob[0], RpType[0], RpNum[0], RpMap[0][0], RpMap[0][1], RpMap[0][7], r->cob, r->type, r->count, r->map[0], r->map[1], r->map[2]); return MC_OK; }
-        if (TpCob[0] != t->cob || TpType[0] != t->type || TpNum[0] != t->count || TpMap[0][0] != t->map[0] || TpMap[0][1] != t->map[1] || TpMap[0][7] != t->map[2])
-            { mc_fail("pdo-stored-value", "after '%s' TPDO parameters are cob=%08X type=%d count=%d map=%08X,%08X,..,%08X; expected cob=%08X type=%d count=%d map=%08X,%08X,..,%08X", ev_name(e), TpCob[0], TpType[0], TpNum[0], TpMap[0][0], TpMap[0][1], TpMap[0][7], t->cob, t->type, t->count, t->map[0], t->map[1], t->map[2]); return MC_OK; }
-        for (int k = 2; k < 7; k++) if (RpMap[0][k] || TpMap[0][k]) { mc_fail("pdo-stored-value", "a mapping entry that was never written changed"); return MC_OK; }
+        if (RpCob[0] != r->cob || RpType[0] != r->type || RpNum[0] != r->count || memcmp(RpMap[0], r->map, sizeof r->map))
+            { mc_fail("pdo-stored-value", "after '%s' RPDO parameters are cob=%08X type=%d count=%d map=%08X,%08X,..,%08X; expected cob=%08X type=%d count=%d map=%08X,%08X,..,%08X", ev_name(e), RpCob[0], RpType[0], RpNum[0], RpMap[0][0], RpMap[0][1], RpMap[0][7], r->cob, r->type, r->count, r->map[0], r->map[1], r->map[7]); return MC_OK; }
+        if (TpCob[0] != t->cob || TpType[0] != t->type || TpNum[0] != t->count || memcmp(TpMap[0], t->map, sizeof t->map))
+            { mc_fail("pdo-stored-value", "after '%s' TPDO parameters are cob=%08X type=%d count=%d map=%08X,%08X,..,%08X; expected cob=%08X type=%d count=%d map=%08X,%08X,..,%08X", ev_name(e), TpCob[0], TpType[0], TpNum[0], TpMap[0][0], TpMap[0][1], TpMap[0][7], t->cob, t->type, t->count, t->map[0], t->map[1], t->map[7]); return MC_OK; }
     }
     restore_objects();
     return MC_OK;
 }
 
-static const mc_harness H = { "C14", "c14", 2, cfg_name, build, ev_name, step, 6, 5 };
+static const mc_harness H = { "C14", "c14", 2, cfg_name, build, ev_name, step, 12, 5 };
 int main(int argc, char **argv) { return mc_main(argc, argv, &H); }
